@@ -340,10 +340,7 @@ def e7(ctx: Ctx):
     from .pipeline import pipeline
 
     P = pipeline(ctx)
-    pro = None
-    for n in ast.walk(P.fn):
-        if isinstance(n, ast.Assign) and isinstance(n.targets[0], ast.Name) and n.targets[0].id == "prefix_lines" and isinstance(n.value, ast.List):
-            pro = n.value
+    pro = P.prologue()
     ctx.need(pro is not None, "convert.prefix_lines", "prologue list not found")
     first = unparse(pro.elts[0]) if pro.elts else ""
     okb = "Basic09CodeStatement('base 0')" in first
